@@ -1674,8 +1674,10 @@ func vC16Sched(r *rand.Rand, pk vC16LockPeek, capacity int64, prefix []vC16SCall
 	for _, p := range prefix {
 		c.Add(p.k, p.v)
 	}
+	held := make([]bool, ns) // segment locks the test owns
 	for i := 0; i < ns; i++ {
 		m.segments[i].rwlock.Lock()
+		held[i] = true
 	}
 	T := len(progs)
 	done := make([]atomic.Bool, T)
@@ -1852,11 +1854,12 @@ func vC16Sched(r *rand.Rand, pk vC16LockPeek, capacity int64, prefix []vC16SCall
 				continue // scripted release with nobody waiting: nothing to see
 			}
 			m.segments[arg].rwlock.Unlock()
+			held[arg] = false
 			if e := settle(arg); e != "" {
 				goFail = name + ": " + e
-				m.segments[arg].rwlock.TryLock()
 				break
 			}
+			held[arg] = true
 			observe(fmt.Sprintf("Rel %d", arg))
 		}
 	}
@@ -1865,7 +1868,9 @@ func vC16Sched(r *rand.Rand, pk vC16LockPeek, capacity int64, prefix []vC16SCall
 	}
 	// let everybody finish
 	for i := 0; i < ns; i++ {
-		m.segments[i].rwlock.Unlock()
+		if held[i] {
+			m.segments[i].rwlock.Unlock()
+		}
 	}
 	if !vC16WaitOrHang(&wg) && goFail == "" {
 		goFail = name + ": threads did not return after every lock was released"
@@ -2046,6 +2051,9 @@ func vC16CorpusSched(r *rand.Rand, pk vC16LockPeek, path string) []map[string]an
 		c := vC16Sched(r, pk, sc.Capacity, prefix, progs, sc.Script, sc.Name)
 		c["k"] = "corpus-sched"
 		out = append(out, c)
+		if vC16SchedStuck(c) {
+			break
+		}
 	}
 	return out
 }
@@ -2057,15 +2065,32 @@ func TestVerifC16Sched(t *testing.T) {
 	n := vC16EnvInt("VERIF_N", 40)
 	r := rand.New(rand.NewSource(seed + 4242))
 	pk := vC16NewLockPeek()
+	var corpus []map[string]any
 	if dir := os.Getenv("VERIF_CORPUS"); dir != "" {
-		for _, c := range vC16CorpusSched(r, pk, dir+"/sched_scripts.json") {
-			tr.emit(c)
+		corpus = vC16CorpusSched(r, pk, dir+"/sched_scripts.json")
+	}
+	halted := false
+	for _, c := range corpus {
+		tr.emit(c)
+		halted = halted || vC16SchedStuck(c)
+	}
+	for i := -1; i < n && !halted; i++ {
+		var c map[string]any
+		if i < 0 {
+			c = vC16SchedSparse(r, pk)
+		} else {
+			c = vC16SchedRandom(r, pk, i)
 		}
+		tr.emit(c)
+		halted = vC16SchedStuck(c)
 	}
-	tr.emit(vC16SchedSparse(r, pk))
-	for i := 0; i < n; i++ {
-		tr.emit(vC16SchedRandom(r, pk, i))
-	}
+}
+
+// a case that ends with threads stuck (nested locks, a deadlock) costs its whole
+// waiting budget: the first one is reported and the driver stops there
+func vC16SchedStuck(c map[string]any) bool {
+	f, _ := c["go_fail"].(string)
+	return strings.Contains(f, "stays locked") || strings.Contains(f, "neither return nor reach") || strings.Contains(f, "did not return")
 }
 
 // ---------------------------------------------------------- linearizability
@@ -2410,6 +2435,6 @@ func TestVerifC16Race(t *testing.T) {
 		tr.emit(vC16CasStress(seed+int64(200+i), 8, 40000))
 	}
 	// linearizability of Get/Add/Remove/CompareAndSwap/CompareAndDelete, race detector on
-	tr.emit(vC16Linearize(seed+300, 50*n, 4))
-	tr.emit(vC16Linearize(seed+301, 25*n, 8))
+	tr.emit(vC16Linearize(seed+300, 20*n, 4))
+	tr.emit(vC16Linearize(seed+301, 10*n, 8))
 }
